@@ -2,8 +2,8 @@ INIT InitAlias
 NEXT NextNone
 CONSTANTS
   Ns = {5}
-  Variants = {1}
-  Mixed = {FALSE}
+  Variants = {1, 2, 3, 4, 5}
+  Mixed = {FALSE, TRUE}
   KindPats = {"struct"}
   Compacts = {FALSE}
   MaxEdges = 0
